@@ -19,6 +19,7 @@ Record orun := mk_orun {
 
 Record case := mk_case {
   c_args : args;
+  c_entry : list bytes;                                   (* package paths of the entrypoints *)
   c_world : world;                                        (* as loaded before the first run *)
   c_gens : list (bytes * bool * list (bytes * script));
   c_fs0 : list (path * bytes);                            (* generated-looking files and gengo.sum before the first run *)
@@ -64,8 +65,8 @@ Definition fs_of (l : list (path * bytes)) : fs :=
 Definition gens_of (c : case) : list gen :=
   map (fun g => scripted (fst (fst g)) (snd (fst g)) (snd g)) (c_gens c).
 
-Definition model_run (a : args) (w : world) (gs : list gen) (f : fs) : option (fs * calllog) :=
-  run true true encode parse_sum oid a w gs f.
+Definition model_run (a : args) (e : list bytes) (w : world) (gs : list gen) (f : fs) : option (fs * calllog) :=
+  run true true encode parse_sum oid a e w gs f.
 
 Definition candidates (a : args) (w : world) (gs : list gen) (extra : list path) : list path :=
   (w_moddir w, sum_name)
@@ -97,11 +98,11 @@ Definition run_mismatch (m : option (fs * calllog)) (r : orun) (cands : list pat
 Definition mismatch (c : case) : bool :=
   let gs := gens_of c in
   let f0 := fs_of (c_fs0 c) in
-  let m1 := model_run (c_args c) (c_world c) gs f0 in
+  let m1 := model_run (c_args c) (c_entry c) (c_world c) gs f0 in
   let cands := candidates (c_args c) (c_world c) gs (map fst (c_fs0 c)) in
   run_mismatch m1 (c_run1 c) cands
   || match m1, c_world2 c, c_run2 c with
-     | Some (f1, _), Some w2, Some r2 => run_mismatch (model_run (c_args c) w2 gs f1) r2 cands
+     | Some (f1, _), Some w2, Some r2 => run_mismatch (model_run (c_args c) (c_entry c) w2 gs f1) r2 cands
      | _, _, _ => false
      end.
 
@@ -126,7 +127,7 @@ Definition sum_ok (a : args) (w : world) (r : orun) : bool :=
         let lines := filter (fun l => negb (is_nil l)) (split_on nl (of_abs f) []) in
         let ks := map (fun l => hd [] (split_on sp l [])) lines in
         strictly_sorted ks
-        && list_eqb bytes_eqb ks (sort (map pk_path (w_pkgs w)))
+        && list_eqb bytes_eqb ks (sort_strings (map pk_path (w_pkgs w)))
         && forallb (fun l => existsb (fun p => bytes_eqb l (pk_path p ++ [sp] ++ pk_hash p)) (w_pkgs w)) lines
     end
   else true.
